@@ -261,6 +261,7 @@ def m_std_deserialize(e,run,a,f):
     m=re.match(r'^<(.*) as (?:[A-Za-z_:0-9]*::)?Deserialize<.*?>>::deserialize',f)
     ty=m.group(1) if m else None
     if ty is None: raise Unsupported('deserialize '+f[:80])
+    ty=run.ghost.get('tysubst',{}).get(ty.strip(),ty)
     d=deref(a[0])
     if isinstance(d,Agg) and d.ty=='FlatMapDeserializer':
         # #[serde(flatten)]: the remaining (key, value) pairs collected by the derived visitor
@@ -294,16 +295,33 @@ def entry(chan):
             if mm: t=[x for x in split_top(mm.group(1)) if not x.strip().startswith("'")]; break
         if not t: raise Unsupported('serde_json entry without type: '+f[:80])
         ty=t[-1] if meth=='from_reader' else t[0]
+        ty=run.ghost.get('tysubst',{}).get(ty.strip(),ty)        # generic wrappers of the crate (`fn from_reader<R, T>`): the harness binds T
         src=deref(a[0])
         if isinstance(src,Agg) and src.ty=='serde_json::Value': v=src; ch='tree'
-        elif isinstance(src,Opaque) and src.kind=='JsonDoc': v=src.p['v']; ch=src.p['chan'] if chan is None else chan
+        elif isinstance(src,Opaque) and src.kind=='JsonDoc':
+            v=src.p['v']; ch=src.p['chan'] if chan is None else chan
+            # serde_json's from_str / from_slice / from_reader call Deserializer::end(): anything but whitespace after the value is an error
+            if src.p.get('trailing'): return err(derror('trailing characters'))
         else: raise Unsupported('serde_json::'+meth+' needs a JsonDoc ghost document or a Value')
         try: return ok(de_type(e,run,ty,v,ch))
         except DeFail as d: return err(d.msg if isinstance(d.msg,V) else derror(d.msg))
     return m
 
+def m_stream_de_new(chan):
+    # serde_json::Deserializer::{from_reader,from_slice,from_str}: a deserializer over a document; `end()` must be called by the user
+    def m(e,run,a,f):
+        src=deref(a[0])
+        if not (isinstance(src,Opaque) and src.kind=='JsonDoc'): raise Unsupported('serde_json::Deserializer over '+repr(src)[:60])
+        return Opaque('ValueDe',{'v':src.p['v'],'chan':chan or src.p['chan'],'trailing':bool(src.p.get('trailing'))})
+    return m
+def m_stream_de_end(e,run,a,f):
+    d=deref(a[0])
+    return err(derror('trailing characters')) if d.p.get('trailing') else ok(UNIT)
 def register(E):
     M=E.model
+    M(r'^(serde_json::)?Deserializer::from_reader$',m_stream_de_new('reader')); M(r'^(serde_json::)?Deserializer::from_(slice|str)$',m_stream_de_new(None))
+    M(r'^(serde_json::)?Deserializer::end$',m_stream_de_end)
+    M(r'^(std::io::)?BufReader::new$',lambda e,run,a,f: a[0])
     E.enums['Content']=CONTENT_VARIANTS
     D=r'^<(__D|D|__E|E|[A-Za-z_:<>\' ,]*Deserializer[A-Za-z_:<>\' ,]*) as (crypto::_::_serde::|serde::)?Deserializer<.*>>::'
     M(D+r'deserialize_any$',m_de_any); M(D+r'deserialize_struct$',m_de_struct); M(D+r'deserialize_(seq|tuple|tuple_struct)$',m_de_seq)
